@@ -6,6 +6,7 @@ import (
 	"io"
 	"net/http"
 	"strings"
+	"sync"
 	"time"
 
 	connect "github.com/bufbuild/connect-go"
@@ -236,6 +237,9 @@ func c01(run *ev.Run) int {
 	if !run.Replaying() || strings.Contains(run.ReplayKey(), "late-eof") {
 		c01LateRequestEOF(run)
 	}
+	if !run.Replaying() || strings.Contains(run.ReplayKey(), "jitter") {
+		c01Jitter(run)
+	}
 	g1, p1, r1, dp := connect.VerifPoolStats()
 	run.Count("pool.gets", int64(g1-g0))
 	run.Count("pool.puts", int64(p1-p0))
@@ -250,8 +254,18 @@ func c01(run *ev.Run) int {
 }
 
 func c01Call(run *ev.Run, srv *svc.Server, cs *svc.ClientSet, kind svc.Kind, key, cfg string, spec []string, sends, replies []*gen.Msg, prog *svc.Program) {
+	c01CallWith(run, srv, cs, kind, key, cfg, spec, sends, replies, prog, nil, nil)
+}
+
+func c01CallWith(run *ev.Run, srv *svc.Server, cs *svc.ClientSet, kind svc.Kind, key, cfg string, spec []string, sends, replies []*gen.Msg, prog *svc.Program, pre, post func(id string)) {
 	call := srv.Reg.New("c01", prog)
 	defer srv.Reg.Drop(call)
+	if pre != nil {
+		pre(call.ID)
+	}
+	if post != nil {
+		defer post(call.ID)
+	}
 	defer cs.Tap.Forget(call.ID)
 	var cl *svc.CLog
 	ctx, cancel := context.WithCancel(context.Background())
@@ -417,4 +431,139 @@ func c01LateRequestEOF(run *ev.Run) {
 			}
 		}
 	}
+}
+
+// jitterBody delays reads according to a seeded schedule.
+type jitterBody struct {
+	io.ReadCloser
+	delays []time.Duration
+	n      int
+}
+
+func (b *jitterBody) Read(p []byte) (int, error) {
+	if b.n < len(b.delays) && b.delays[b.n] > 0 {
+		time.Sleep(b.delays[b.n])
+	}
+	b.n++
+	return b.ReadCloser.Read(p)
+}
+
+type jitterTransport struct {
+	next     http.RoundTripper
+	reqReads []time.Duration
+	resReads []time.Duration
+}
+
+func (t jitterTransport) RoundTrip(r *http.Request) (*http.Response, error) {
+	if r.Body != nil {
+		r.Body = &jitterBody{ReadCloser: r.Body, delays: t.reqReads}
+	}
+	resp, err := t.next.RoundTrip(r)
+	if err == nil {
+		resp.Body = &jitterBody{ReadCloser: resp.Body, delays: t.resReads}
+	}
+	return resp, err
+}
+
+// c01Jitter is a schedule fuzzer at the HTTP boundary: seeded random delays in
+// front of the transport's reads of the request body, the library's reads of
+// the response body, and on the server before the handler starts and after it
+// has returned (which delays the end of the HTTP stream). All calls are
+// fault-free, so the C01 oracle applies unchanged.
+func c01Jitter(run *ev.Run) {
+	reg := svc.NewRegistry()
+	hs := svc.Handlers(reg)
+	mux := svc.Mux(hs)
+	var before, after sync.Map // call id -> time.Duration
+	front := http.HandlerFunc(func(w http.ResponseWriter, req *http.Request) {
+		id := req.Header.Get("X-Verif-Call")
+		if d, ok := before.Load(id); ok {
+			time.Sleep(d.(time.Duration))
+		}
+		mux.ServeHTTP(w, req)
+		if d, ok := after.Load(id); ok {
+			time.Sleep(d.(time.Duration))
+		}
+	})
+	srv := svc.NewServerWith(reg, hs, front)
+	defer srv.Close()
+	pick := func(r interface{ Intn(int) int }) time.Duration {
+		return []time.Duration{0, 0, 0, 0, time.Millisecond, 5 * time.Millisecond, 20 * time.Millisecond, 60 * time.Millisecond}[r.Intn(8)]
+	}
+	type cfgT struct {
+		h2    bool
+		proto string
+		kind  svc.Kind
+	}
+	var cfgs []cfgT
+	for _, h2 := range []bool{true, false} {
+		for _, p := range svc.Protocols {
+			for _, k := range svc.Kinds {
+				if k == svc.Bidi && !h2 {
+					continue
+				}
+				cfgs = append(cfgs, cfgT{h2, p, k})
+			}
+		}
+	}
+	n := run.Pick(12, 150)
+	parallel(16, len(cfgs), func(ci int) {
+		c := cfgs[ci]
+		for i := 0; i < n; i++ {
+			key := fmt.Sprintf("c01/jitter/h2=%v/%s/%s/i=%d", c.h2, c.proto, c.kind, i)
+			if !run.Want(key) || run.Saturated() {
+				continue
+			}
+			r := run.Rand(key)
+			jt := jitterTransport{}
+			// three profiles, so that delays on one side are also explored
+			// against an undisturbed other side
+			profile := i % 3
+			for k := 0; k < 6; k++ {
+				var a, b time.Duration
+				if profile != 1 {
+					a = pick(r)
+				}
+				if profile != 0 {
+					b = pick(r)
+				}
+				jt.reqReads = append(jt.reqReads, a)
+				jt.resReads = append(jt.resReads, b)
+			}
+			hc, base, tap := srv.HTTPClient(c.h2)
+			jt.next = hc.Transport
+			cs := svc.NewClientSet(&http.Client{Transport: jt}, base, svc.ProtoOpts(c.proto, "proto")...)
+			cs.Tap = tap
+			in := []*gen.Msg{{Id: 1, Note: "a"}, gen.New(2, 3000, true), {Id: 3}}
+			out := []*gen.Msg{gen.New(4, 1000, true), {Id: 5, Note: "e"}}
+			sends, replies := in, out
+			if c.kind == svc.Unary || c.kind == svc.ServerStream {
+				sends = in[:1]
+			}
+			if c.kind == svc.Unary || c.kind == svc.ClientStream {
+				replies = out[:1]
+			}
+			prog := &svc.Program{Steps: []svc.Step{{Op: "recvall"}}}
+			if c.kind == svc.Bidi && r.Intn(2) == 0 {
+				prog.Steps = nil // answer before draining
+				for _, m := range replies {
+					prog.Steps = append(prog.Steps, svc.Step{Op: "send", Msg: m})
+				}
+				prog.Steps = append(prog.Steps, svc.Step{Op: "recvall"})
+			} else {
+				for _, m := range replies {
+					prog.Steps = append(prog.Steps, svc.Step{Op: "send", Msg: m})
+				}
+			}
+			spec := []string{"jitter", fmt.Sprint(jt.reqReads), fmt.Sprint(jt.resReads)}
+			run.Count("schedule.jitter.calls", 1)
+			c01CallWith(run, srv, cs, c.kind, key, fmt.Sprintf("jitter/h2=%v/%s/%s", c.h2, c.proto, c.kind), spec, sends, replies, prog, func(id string) {
+				before.Store(id, pick(r))
+				after.Store(id, pick(r)*3)
+			}, func(id string) {
+				before.Delete(id)
+				after.Delete(id)
+			})
+		}
+	})
 }
